@@ -29,7 +29,16 @@ shared between tracks are such representations. On the world every observation o
 
 Third part ("per coordinate class", model `Model/CinematicsCoords.lean`): the same Python run on tracks whose positions
 are `ENUCoords`, `GeoCoords` or `ECEFCoords` — which `distance2DTo` each feature dispatches to, the statement for every
-class that defines a planimetric distance, what the Geo distance is geometrically, and what happens on ECEF tracks. -/
+class that defines a planimetric distance, what the Geo distance is geometrically, and what happens on ECEF tracks.
+
+Fourth part ("on the feature table, for every coordinate class", model `Model/CinematicsTabK.lean`): the dispatch of the
+third part put behind the Track API as a KERNEL (`Obs.__check_call_geom1` + the class's `distance2DTo`), the programs
+written once for any kernel, and the table theorems of the second part for every class that defines a planimetric
+distance (`abscurv_table_class`, `speed_table_class`, `curvabs_table_class`, on shared observations
+`abscurv_shared_class` / `speed_shared_class`), the exception path of ECEF tracks from the table laws
+(`ecef_refused_table`), purity and zone-blindness for EVERY kernel (`positions_and_stamps_unchanged_class`,
+`zone_not_read_class`). The ENU programs of the second part are instances of the generic ones by `rfl`
+(`enu_programs_are_instances`). -/
 namespace TV.C17
 open TV.Cinematics
 variable {α : Type}
@@ -836,6 +845,87 @@ theorem zone_not_read_class {V : Type} [AbsTime V] (g : GOps V) (K : Kernel V) (
   stepK_blind g K op hop f w
 
 end tableClass
+
+section tableClassRounded
+open TV.CinTabK TV.CinCoords
+open TV.Geo (Trig V3)
+variable [Add α] [Sub α] [Mul α] [Div α] [Neg α] [OfScientific α] [OfNat α 0] [Preorder α]
+
+/-- "Never decreases" for the column `abscurv_table_class` returns, for every class and WITHOUT exact arithmetic: under the
+two facts of correctly rounded IEEE arithmetic (`0 ≤ sqrt x`; `0 ≤ d → a ≤ a + d`) the prefix sums `abscD` of the class
+distance never decrease — whatever `sin`, `cos`, `atan2`, `pow` return: every leg is a square root. -/
+theorem abscurv_monotone_class (T : Trig α) (hsqrt : ∀ x, 0 ≤ T.sqrt x) (hadd : ∀ a d : α, 0 ≤ d → a ≤ a + d)
+    (c : Cls) (P : List (V3 α)) : ∀ i j, i ≤ j → abscD (dist2C T c) P i ≤ abscD (dist2C T c) P j := by
+  have hd : ∀ p q, 0 ≤ dist2C T c p q := by
+    intro p q
+    cases c with
+    | enu => exact hsqrt _
+    | geo => exact hsqrt _
+    | ecef => exact le_refl _
+  have step : ∀ i, abscD (dist2C T c) P i ≤ abscD (dist2C T c) P (i + 1) := by
+    intro i
+    show abscD (dist2C T c) P i ≤ abscD (dist2C T c) P i + _
+    apply hadd
+    cases P[i + 1]? with
+    | none => exact le_refl _
+    | some p =>
+      cases P[i]? with
+      | none => exact le_refl _
+      | some q => exact hd p q
+  intro i j hij
+  induction hij with
+  | refl => exact le_refl _
+  | step _ ih => exact le_trans ih (step _)
+
+end tableClassRounded
+
+section tableClassEntries
+open TV.CinTabK
+open TV.Geo (V3)
+variable [Add α] [Sub α] [Mul α] [Div α] [OfNat α 0] [BEq α] [LawfulBEq α]
+
+/-- The entries of the columns `abscurv_table_class` / `speed_table_class` return, for ANY distance `d` (`d self point` =
+`self.distance2DTo(point)`): the abscissa starts at `0` and grows by `d(P[i+1], P[i])`; the speed column has one value per
+fix, `v[0]` from fixes (1,0), `v[n-1]` from fixes (n-1,n-2), `v[i]` from fixes (i+1,i-1) otherwise, NaN exactly when the
+elapsed time is zero, else `d(P[a], P[b])` over the elapsed time. -/
+theorem class_columns_def (d : V3 α → V3 α → α) (P : List (V3 α)) (ts : List α) (hn : 2 ≤ P.length) (hts : ts.length = P.length) :
+    abscD d P 0 = 0
+    ∧ (∀ i (h : i + 1 < P.length), abscD d P (i + 1) = abscD d P i + d (P[i + 1]'h) (P[i]'(Nat.lt_of_succ_lt h)))
+    ∧ (speedColD d P ts).length = P.length
+    ∧ ∀ (i a b : Nat) (_hi : i < P.length),
+      ((i = 0 ∧ a = 1 ∧ b = 0) ∨ (i = P.length - 1 ∧ a = P.length - 1 ∧ b = P.length - 2)
+        ∨ (0 < i ∧ i < P.length - 1 ∧ a = i + 1 ∧ b = i - 1)) →
+      ∀ (ha : a < P.length) (hb : b < P.length),
+        (ts[a]'(hts ▸ ha) - ts[b]'(hts ▸ hb) = 0 → (speedColD d P ts)[i]? = some none) ∧
+        (ts[a]'(hts ▸ ha) - ts[b]'(hts ▸ hb) ≠ 0 →
+          (speedColD d P ts)[i]? = some (some (d P[a] P[b] / (ts[a]'(hts ▸ ha) - ts[b]'(hts ▸ hb))))) := by
+  refine ⟨rfl, fun i h => abscD_succ d P i h, by simp [speedColD], ?_⟩
+  intro i a b hi hcase ha hb
+  have ha' : a < ts.length := hts ▸ ha
+  have hb' : b < ts.length := hts ▸ hb
+  have hbetween : speedBetweenD d P ts a b = quot (d P[a] P[b]) (ts[a] - ts[b]) := by
+    unfold speedBetweenD
+    rw [List.getElem?_eq_getElem ha, List.getElem?_eq_getElem hb, List.getElem?_eq_getElem ha', List.getElem?_eq_getElem hb']
+  have key : speedAtD d P ts i = quot (d P[a] P[b]) (ts[a] - ts[b]) := by
+    rw [← hbetween]
+    unfold speedAtD
+    rcases hcase with ⟨h0, h1, h2⟩ | ⟨h0, h1, h2⟩ | ⟨h0, h1, h2, h3⟩
+    · subst h0 h1 h2; simp
+    · subst h1 h2
+      have hz : ¬ (P.length - 1 = 0) := by omega
+      subst h0
+      simp [hz]
+    · subst h2 h3
+      have hz : i ≠ 0 := by omega
+      have hl : i ≠ P.length - 1 := by omega
+      simp [hz, hl]
+  have hget : (speedColD d P ts)[i]? = some (speedAtD d P ts i) := by
+    unfold speedColD
+    simp [hi]
+  rw [hget, key]
+  exact ⟨fun h => by rw [quot_zero _ _ h], fun h => by rw [quot_ne _ _ h]⟩
+
+end tableClassEntries
 
 /-! ### non-vacuity -/
 
